@@ -170,7 +170,7 @@ def gen_cases(ctx):
                   {"kind": "tensor", "dtype": "float64"}, {"kind": "tensor", "dtype": "int64"},
                   {"kind": "dataset"}, {"kind": "dataset", "batch": "b"}, {"kind": "dataset", "batch": "b"},
                   {"kind": "dataset", "batch": "b", "wrapped": True}]
-    per_method = (12 if thorough else 6) * ctx.budget_scale
+    per_method = (30 if thorough else 6) * ctx.budget_scale
     for name in METHODS:
         for j in range(per_method):
             if name in IMG_ONLY:
